@@ -1034,7 +1034,7 @@ def _check_direction_routing(ctx):
                 ctx.check(ok, "C01d-direction-routing", f,
                           f"{ast.unparse(call.func)}(...) receives the "
                           f"caller's direction '{holder}'", why, node=call)
-    ctx.floor("C01d-direction-routing", n_sites, 8)
+    ctx.floor("C01d-direction-routing", n_sites, 4)
 
 
 def _check_registry(ctx):
